@@ -149,12 +149,18 @@ func (e *Exec) invoke(fr *Frame, st State, cc *ssa.CallCommon, recv Val, args []
 }
 
 func (e *Exec) inStack(fr *Frame, fn *ssa.Function) bool {
+	n := 0
 	for _, f := range e.stack {
 		if f == fn {
-			return true
+			n++
 		}
 	}
-	return false
+	// transparent dispatchers may legitimately be re-entered (util.Unpack -> (*Info).Unpack ->
+	// util.Unpack); genuine recursion is cut after three nested activations
+	if ct := e.P.contracts.lookup(e.P, fn); ct != nil && ct.Inline {
+		return n >= 3
+	}
+	return n >= 1
 }
 
 func (e *Exec) callStatic(fr *Frame, st State, fn *ssa.Function, args []Val, binds []Val, pos token.Pos) []Outcome {
@@ -164,17 +170,17 @@ func (e *Exec) callStatic(fr *Frame, st State, fn *ssa.Function, args []Val, bin
 			e.assumed["trusted contract: "+shortFn(fn.String())] = true
 			return e.applyContract(fr, st, fn, ct, args, pos)
 		}
-		if ct != nil && !ct.Inline && !e.forceInline && fn != e.rootFn && ct.usable() &&
-			(len(ct.Ensures) > 0 || fn.Signature.Results().Len() == 0) {
-			e.viaCt[shortFn(fn.String())] = true
-			return e.applyContract(fr, st, fn, ct, args, pos)
-		}
 		if ct != nil && ct.Pure && fn != e.rootFn && fn.Signature.Results().Len() == 1 && !e.inStack(fr, fn) {
 			// pure function: all paths merged into one outcome (no path multiplication)
 			env := &cenv{e: e, vars: map[string]cval{}, cur: st, old: st, pkg: e.pkgOf(fn), brkOld: st.brk, facts: new([]*Term)}
 			r := env.pureCall(fn, args)
 			st = e.useFacts(st, env)
 			return []Outcome{{st: st, ret: r.v}}
+		}
+		if ct != nil && !ct.Inline && !e.forceInline && fn != e.rootFn && ct.usable() &&
+			(len(ct.Ensures) > 0 || fn.Signature.Results().Len() == 0) {
+			e.viaCt[shortFn(fn.String())] = true
+			return e.applyContract(fr, st, fn, ct, args, pos)
 		}
 		if e.inStack(fr, fn) {
 			var names []string
